@@ -81,7 +81,7 @@ TypeApplies(t, e) == t = "ECOSYSTEM" \/ (t = "SEMVER" /\ e = "npm")
 
 EntryAffects(a, q, e) ==
   /\ a.pkg = "same"
-  /\ \/ q \in a.versions
+  /\ \/ \E k \in 1..Len(a.versions) : a.versions[k] = q
      \/ \E i \in 1..Len(a.ranges) : TypeApplies(a.ranges[i].type, e) /\ RangeAffects(a.ranges[i].events, q)
 Affected(rec, q, e) == \E i \in 1..Len(rec) : EntryAffects(rec[i], q, e)
 
@@ -104,7 +104,7 @@ RangeOp(events, q) ==
      ELSE idx # 0 /\ x[idx].k = "introduced"
 EntryOp(a, q, e) ==
   /\ a.pkg = "same"
-  /\ \/ q \in a.versions
+  /\ \/ \E k \in 1..Len(a.versions) : a.versions[k] = q
      \/ \E i \in 1..Len(a.ranges) :
           /\ a.ranges[i].type = "ECOSYSTEM" \/ (a.ranges[i].type = "SEMVER" /\ e = "npm")
           /\ RangeOp(a.ranges[i].events, q)
@@ -123,9 +123,10 @@ CloseRange(t) == /\ WellFormed(cur)
                  /\ ranges' = Append(ranges, [type |-> t, events |-> cur])
                  /\ cur' = <<>>
                  /\ UNCHANGED <<affected, eco>>
-VersionLists == IF WithVersions THEN {{}, {2}, {3}} ELSE {{}}
+\* explicit lists are sequences: the record lists them in any order (version order, reverse, neither)
+VersionLists == IF WithVersions THEN {<<>>, <<2>>, <<3>>, <<3, 2>>, <<1, 3>>, <<3, 1, 2>>} ELSE {<<>>}
 CloseAffected(p, vs) == /\ cur = <<>> /\ Len(affected) < MaxAffected
-                        /\ (ranges # <<>> \/ vs # {})
+                        /\ (ranges # <<>> \/ vs # <<>>)
                         /\ affected' = Append(affected, [pkg |-> p, versions |-> vs, ranges |-> ranges])
                         /\ ranges' = <<>>
                         /\ UNCHANGED <<cur, eco>>
